@@ -56,6 +56,9 @@ def xfer_probes():
 
 
 def replay(obj):
+    if obj.get("kind") == "facade-history":
+        from corr import facade_hist
+        return facade_hist.replay(obj)
     if obj.get("kind") == "c03-xfer":
         hits, _ = xfer_probes()
         return not hits, "on the implementation: %s" % (hits[0]["observed"] if hits else "direction and lengths follow the buffer lengths")
@@ -100,6 +103,8 @@ def run(rep, tier, seed, summary):
     if not hits:
         hits, nprobes = xhits, nprobes + nx
     rep.extra["implementation_probes"] = nprobes
+    from corr import facade_hist
+    hits = list(hits) + facade_hist.run(rep, tier, seed, {"buffers"}, PID)
     new = [h for h in hits if h["id"] not in known]
     for h in hits:
         if h["id"] in known:
